@@ -82,6 +82,8 @@ class Opt:
         self.empty_items = True
         self.blank_start_items = True
         self.unclosed_fence = True
+        self.leaf_kinds = None       # restrict leaf block kinds (C07 / C19 skeletons)
+        self.force_loose = False
         self.max_depth = 4
         self.max_blocks = 40
         for k, v in kw.items():
@@ -399,7 +401,7 @@ class Gen:
         if depth < opt.max_depth and rng.random() < (0.30 if depth == 0 else 0.22):
             kind = rng.choice(CONTAINER_KINDS)
         else:
-            kind = rng.choice(LEAF_KINDS)
+            kind = rng.choice(opt.leaf_kinds or LEAF_KINDS)
         if opt.prose and kind in ('hr', 'fence', 'icode', 'table', 'html', 'atx', 'setext'):
             kind = rng.choice(('para', 'para', 'para', kind))
         if opt.outline and kind in ('atx', 'setext'):
@@ -513,7 +515,7 @@ class Gen:
     def list_(self, depth, in_quote):
         rng, opt = self.rng, self.opt
         ordered = rng.random() < 0.4
-        tight = rng.random() < 0.5
+        tight = rng.random() < 0.5 and not opt.force_loose
         items = []
         for _ in range(rng.choice((1, 2, 2, 3, 4))):
             if opt.empty_items and rng.random() < 0.04 and items:
@@ -576,8 +578,10 @@ def can_follow(prev, nxt):
         if nk == 'html':
             return nxt.cond != 7                          # 4.6
         return False
+    if pk == 'refdef':
+        return nk in ('refdef', 'para', 'atx')           # 4.7: definitions may follow each other and be followed by other blocks directly
     if pk in ('atx', 'hr', 'setext'):
-        return nk not in ('refdef',) or True
+        return True
     if pk == 'fence':
         return prev.closed
     return False
@@ -772,7 +776,7 @@ class Emitter:
             tq = nd.tq
             if (tq == '"' and '"' in nd.title) or (tq == "'" and "'" in nd.title) or (tq == '(' and ('(' in nd.title or ')' in nd.title)):
                 tq = next(q for q in '"\'(' if not ((q == '"' and '"' in nd.title) or (q == "'" and "'" in nd.title) or (q == '(' and '(' in nd.title)))
-            t = tq + nd.title + (')' if tq == '(' else tq)
+            t = tq + getattr(nd, 'title_md', nd.title) + (')' if tq == '(' else tq)
             if nd.title_nl:
                 out.append(Line('  ' + t, kind='refdef-title'))
             else:
